@@ -606,6 +606,9 @@ struct Spec {
     /// a second key Z published in zone.tld.'s DNSKEY RRset (which the DS-referenced key K keeps signing);
     /// the bool says whether Z (true) or K (false) signs the zone data
     zsk: Option<(Arc<SKey>, Vec<u8>, bool)>,
+    /// a second key K2 of the root: the root's DNSKEY RRset is {K2, K1} and carries a signature of K2
+    /// ONLY (K2 = key-signing key); the root's data stays signed by K1
+    root_ksk: Option<(Arc<SKey>, Vec<u8>)>,
 }
 
 /// A fresh ECDSAP256SHA256 key for `apex`.
@@ -617,7 +620,7 @@ fn gen_key(apex: &str) -> (Arc<SKey>, Vec<u8>) {
 }
 
 fn build_hier(spec: Spec, now: u32) -> Hier {
-    let Spec { name, kind, nsec3, opt_out, decoy, extra, zone_denial, records_changed, zsk } = spec;
+    let Spec { name, kind, nsec3, opt_out, decoy, extra, zone_denial, records_changed, zsk, root_ksk } = spec;
     let (k_root, rd_root, ta) = load_key("008+60616", &nm("."));
     let (k_tld, rd_tld, ta_tld) = load_key("010+46731", &nm("tld."));
     let (k_zone, rd_zone, ta_zone) = load_key("013+42253", &nm("zone.tld."));
@@ -723,7 +726,10 @@ fn build_hier(spec: Spec, now: u32) -> Hier {
         }
     }
     let decoys: Vec<Vec<u8>> = if decoy { vec![forged.as_ref().expect("decoy needs the colliding key").1.clone()] } else { vec![] };
-    let zroot = build_zone(".", root, Some((k_root, rd_root)), den(&[], 0, false), now, &[], None);
+    let zroot = match &root_ksk {
+        None => build_zone(".", root, Some((k_root, rd_root)), den(&[], 0, false), now, &[], None),
+        Some((k2, rd2)) => build_zone(".", root, Some((k_root, rd_root)), den(&[], 0, false), now, &[rd2.clone()], Some(k2)),
+    };
     let ztld = build_zone("tld.", tld, Some((k_tld, rd_tld)), den(&[0xAA, 0xBB], 1, opt_out), now, &[], None);
     let zden = zone_denial.unwrap_or_else(|| den(&[0x01], 2, false));
     let zzone = match (kind, zsk) {
@@ -3250,6 +3256,17 @@ struct Expect<'a> {
 }
 
 impl Expect<'_> {
+    /// Report a violation of the trust-anchor / configuration block (with `only`: just that class).
+    fn report(&self, h: &Hier, sig: String, what: String, extra: &Value) {
+        if self.only.as_ref().map(|o| *o == sig).unwrap_or(true) {
+            if self.only.is_some() {
+                println!("  {what}");
+            }
+            let replay = json!({"scenario": h.name, "special": "anchors-config", "faults": [], "qname": ".", "qtype": 0, "case": extra});
+            self.ctx.violation(&sig, &what, replay);
+        }
+    }
+
     /// Report if `v` is not one of `exp`, or Secure without the harness oracle agreeing.
     fn check(&self, h: &Hier, sig: String, what: String, v: &Verdict, out: &[u8], exp: &[&str], extra: Value) {
         self.stats.eval();
@@ -3279,8 +3296,268 @@ impl Expect<'_> {
     }
 }
 
+// ---- histories of trust-anchor configuration
+
+fn base64(data: &[u8]) -> String {
+    const A: &[u8; 64] = b"ABCDEFGHIJKLMNOPQRSTUVWXYZabcdefghijklmnopqrstuvwxyz0123456789+/";
+    let mut s = String::new();
+    for c in data.chunks(3) {
+        let n = (c[0] as u32) << 16 | (*c.get(1).unwrap_or(&0) as u32) << 8 | *c.get(2).unwrap_or(&0) as u32;
+        s.push(A[(n >> 18) as usize & 63] as char);
+        s.push(A[(n >> 12) as usize & 63] as char);
+        s.push(if c.len() > 1 { A[(n >> 6) as usize & 63] as char } else { '=' });
+        s.push(if c.len() > 2 { A[n as usize & 63] as char } else { '=' });
+    }
+    s
+}
+
+/// Zone-file text of a DNSKEY RDATA.
+fn dnskey_text(rd: &[u8]) -> String {
+    format!("{} {} {} {}", u16::from_be_bytes([rd[0], rd[1]]), rd[2], rd[3], base64(&rd[4..]))
+}
+
+impl Hier {
+    /// The DNSKEY RDATAs of zone `zi` that made a currently valid RRSIG over the zone's DNSKEY RRset: a
+    /// trust anchor authenticates the zone iff it designates one of them (RFC 4035 5: the DNSKEY RRset
+    /// must be signed by a key that matches a configured anchor; any one such key suffices).
+    fn dnskey_signers(&self, zi: usize) -> Vec<Vec<u8>> {
+        let z = &self.zones[zi];
+        let ak = key(&z.apex);
+        // RRSIG RDATA: type covered, algorithm [2], labels, original TTL, expiration, inception, key tag [16..18]
+        let by: Vec<(u16, u8)> = z.sigs.get(&(ak.clone(), T_DNSKEY)).map(|w| w[0].iter().map(|rd| (u16::from_be_bytes([rd[16], rd[17]]), rd[2])).collect()).unwrap_or_default();
+        z.sets.get(&(ak, T_DNSKEY)).map(|s| s.1.iter().filter(|k| by.contains(&(key_tag(k), k[3]))).cloned().collect()).unwrap_or_default()
+    }
+}
+
+/// One record of the trust-anchor menu.
+struct TaRec {
+    label: &'static str,
+    owner: Labels,
+    /// zone-file line
+    line: String,
+    /// the DNSKEY RDATA the record designates (directly, or by its digest)
+    key: Vec<u8>,
+}
+
+/// The menu of anchor records for a hierarchy.  `k2`: RDATA of the second key of the root.
+fn ta_menu(h: &Hier, k2: &[u8], full: bool) -> Vec<TaRec> {
+    let dnskey = |label, o: &str, rd: &[u8]| TaRec { label, owner: nm(o), line: format!("{o} 3600 IN DNSKEY {}", dnskey_text(rd)), key: rd.to_vec() };
+    let ds = |label, o: &str, rd: &[u8], dtype: u8| TaRec { label, owner: nm(o), line: format!("{o} 3600 IN DS {}", ds_text(&nm(o), rd, dtype)), key: rd.to_vec() };
+    let (k1, kt, kz) = (&h.key_texts[0].1, &h.key_texts[1].1, &h.key_texts[2].1);
+    // the harness's own base64 against the text of the key file
+    assert_eq!(dnskey_text(k1).split_whitespace().collect::<Vec<_>>().concat(), h.key_texts[0].0.split_whitespace().collect::<Vec<_>>().concat(), "MACHINERY: DNSKEY text");
+    let mut m = vec![
+        dnskey("root-key1", ".", k1),
+        dnskey("root-key2", ".", k2),
+        ds("root-ds-of-key1", ".", k1, 2),
+        dnskey("tld-key", "tld.", kt),
+        // an owner that is not at or above any name of the hierarchy that is asked for
+        dnskey("unrelated-owner", "other.", k2),
+    ];
+    if full {
+        m.push(ds("root-ds-of-key2", ".", k2, 2));
+        // a second record of tld.: a key that is not in tld.'s DNSKEY RRset
+        m.push(dnskey("tld-foreign-key", "tld.", kz));
+        // 'ld.' is a suffix of 'tld.' as a string, not as a name
+        m.push(dnskey("unrelated-owner-string-suffix", "ld.", k2));
+    }
+    m
+}
+
+/// Execute one configuration history: the constructor (0 from_u8, 1 from_reader, 2 empty) followed by
+/// add_u8 calls; `chunks` are the record lists of the calls (route 2: all of them are add_u8 calls).
+/// Err = name of the operation that rejected well-formed text, or the panic text.
+fn ta_history(menu: &[TaRec], route: u8, chunks: &[Vec<usize>]) -> Result<TrustAnchors, (String, bool)> {
+    let text = |c: &Vec<usize>| c.iter().map(|r| menu[*r].line.clone()).collect::<Vec<_>>().join("\n");
+    let r = guard(|| {
+        let empty = vec![];
+        let (first, rest) = match route {
+            2 => (None, chunks),
+            _ => (Some(chunks.first().unwrap_or(&empty)), chunks.get(1..).unwrap_or(&[])),
+        };
+        let mut t = match (route, first) {
+            (0, Some(c)) => TrustAnchors::from_u8(text(c).as_bytes()).map_err(|_| "from_u8")?,
+            (1, Some(c)) => TrustAnchors::from_reader(std::io::Cursor::new(format!("{}\n", text(c)).into_bytes())).map_err(|_| "from_reader")?,
+            _ => TrustAnchors::empty(),
+        };
+        for c in rest {
+            t.add_u8(text(c).as_bytes()).map_err(|_| "add_u8")?;
+        }
+        Ok::<_, &'static str>(t)
+    });
+    match r {
+        Ok(Ok(t)) => Ok(t),
+        Ok(Err(op)) => Err((op.to_string(), false)),
+        Err(p) => Err((p, true)),
+    }
+}
+
+/// What RFC 4035 (4.3, 5) demands for the unmodified answer to `q` of the fully signed hierarchy `h` when
+/// the SET `set` (bit i = menu record i) of anchors is configured: the configured owner nearest to (at or
+/// above) the zone of the answer decides; none -> Indeterminate; one of its records designates a key that
+/// signs that zone's DNSKEY RRset -> Secure; else Bogus.  Also returns the zone index of that owner.
+fn ta_expected(h: &Hier, menu: &[TaRec], set: u32, q: &Query) -> (&'static str, Option<usize>) {
+    let z = h.classify(&q.name, q.qtype).zone();
+    let zone_of = |r: &TaRec| (0..3usize).find(|zi| key(&h.zones[*zi].apex) == key(&r.owner));
+    let members: Vec<(&TaRec, usize)> = menu.iter().enumerate().filter(|(i, _)| set & (1 << i) != 0).filter_map(|(_, r)| zone_of(r).map(|zi| (r, zi))).filter(|(_, zi)| *zi <= z).collect();
+    let Some(nearest) = members.iter().map(|m| m.1).max() else { return ("Indeterminate", None) };
+    let signers = h.dnskey_signers(nearest);
+    if members.iter().any(|(r, zi)| *zi == nearest && signers.contains(&r.key)) {
+        ("Secure", Some(nearest))
+    } else {
+        ("Bogus", Some(nearest))
+    }
+}
+
+/// HISTORIES of trust-anchor configuration.  Alphabet: the constructors empty(), from_u8(text),
+/// from_reader(text) and the one public mutator add_u8(text), over every sequence (with repetitions) of
+/// at most `depth` records of the menu, cut into calls in every way.  Oracle: (1) the verdict for each
+/// query of a fixed menu is the one RFC 4035 demands for the resulting SET of anchors (`ta_expected`);
+/// (2) it equals the verdict of the one-shot configuration from_u8(records of the set in menu order):
+/// history independence; (3) Secure answers pass the harness's chain oracle.
+fn anchor_histories(ex: &Expect, hiers: &[Arc<Hier>], r2: Option<usize>, k2: &[u8]) -> Value {
+    let quick = ex.ctx.quick();
+    let none: Arc<Vec<Fault>> = Arc::new(vec![]);
+    let q = |n: &str, t: u16| Query { name: nm(n), qtype: t };
+    let mut queries = vec![q("www.zone.tld.", T_A), q("aaa.", T_TXT), q("nx.tld.", T_A)];
+    if !quick {
+        queries.extend([q("www.tld.", T_A), q("nx.", T_A), q("tld.", T_DS), q("zone.tld.", T_DS), q("x.w.zone.tld.", T_A)]);
+    }
+    let depth = 3usize;
+    let mut his = vec![0usize];
+    if !quick {
+        his.extend(r2);
+    }
+    let menus: Vec<Vec<TaRec>> = his.iter().map(|hi| ta_menu(&hiers[*hi], k2, !quick)).collect();
+    let n = menus[0].len();
+    // all record sequences of length 0..=depth
+    let mut seqs: Vec<Vec<usize>> = vec![vec![]];
+    let mut frontier: Vec<Vec<usize>> = vec![vec![]];
+    for _ in 0..depth {
+        let mut next = vec![];
+        for s in &frontier {
+            for r in 0..n {
+                let mut t = s.clone();
+                t.push(r);
+                next.push(t);
+            }
+        }
+        seqs.extend(next.iter().cloned());
+        frontier = next;
+    }
+    let mask_of = |s: &[usize]| s.iter().fold(0u32, |m, r| m | 1 << r);
+    // (1) one-shot configuration of every reachable set
+    let masks: BTreeSet<u32> = seqs.iter().map(|s| mask_of(s)).collect();
+    let mut oneshot_jobs: Vec<(usize, u32, usize)> = vec![];
+    for k in 0..his.len() {
+        for m in &masks {
+            for qi in 0..queries.len() {
+                oneshot_jobs.push((k, *m, qi));
+            }
+        }
+    }
+    let oneshot: BTreeMap<(usize, u32, usize), String> = oneshot_jobs
+        .par_iter()
+        .map(|(k, m, qi)| {
+            let recs: Vec<usize> = (0..n).filter(|i| m & (1 << i) != 0).collect();
+            let v = match ta_history(&menus[*k], 0, &[recs]) {
+                Ok(t) => validate_cfg(&hiers[his[*k]], &queries[*qi], &none, t, VConfig::new()).0.short(),
+                Err(_) => "not-constructed".to_string(),
+            };
+            ((*k, *m, *qi), v)
+        })
+        .collect();
+    // (2) every history
+    let mut jobs: Vec<(usize, usize, u32, u8)> = vec![];
+    for k in 0..his.len() {
+        for (si, s) in seqs.iter().enumerate() {
+            for cuts in 0..1u32 << s.len().saturating_sub(1) {
+                for route in 0..3u8 {
+                    jobs.push((k, si, cuts, route));
+                }
+            }
+        }
+    }
+    let rname = ["from_u8", "from_reader", "empty"];
+    jobs.par_iter().for_each(|(k, si, cuts, route)| {
+        let h = &hiers[his[*k]];
+        let menu = &menus[*k];
+        let s = &seqs[*si];
+        let mut chunks: Vec<Vec<usize>> = vec![];
+        for (i, r) in s.iter().enumerate() {
+            if i == 0 || cuts & (1 << (i - 1)) != 0 {
+                chunks.push(vec![]);
+            }
+            chunks.last_mut().unwrap().push(*r);
+        }
+        let set = mask_of(s);
+        // the operations as text
+        let mut ops: Vec<(String, Vec<usize>)> = vec![];
+        if *route == 2 {
+            ops.push(("empty".into(), vec![]));
+        }
+        for (i, c) in chunks.iter().enumerate() {
+            ops.push((if i == 0 && *route != 2 { rname[*route as usize].to_string() } else { "add_u8".to_string() }, c.clone()));
+        }
+        if ops.is_empty() {
+            ops.push((rname[*route as usize].to_string(), vec![]));
+        }
+        let shown = ops.iter().map(|(o, c)| format!("{o}[{}]", c.iter().map(|r| menu[*r].label).collect::<Vec<_>>().join(" + "))).collect::<Vec<_>>().join(" ; ");
+        let extra = json!({"history": ops.iter().map(|(o, c)| json!([o, c.iter().map(|r| menu[*r].line.clone()).collect::<Vec<_>>()])).collect::<Vec<_>>()});
+        ex.stats.count("anchor-histories|histories");
+        ex.stats.count(&format!("anchor-histories|operations={}", ops.len()));
+        for (qi, qq) in queries.iter().enumerate() {
+            let tas = match ta_history(menu, *route, &chunks) {
+                Ok(t) => t,
+                Err((op, panicked)) => {
+                    ex.stats.eval();
+                    if panicked {
+                        ex.report(h, format!("C14|validator|panic|{}", panic_sig(&op)), format!("configuring trust anchors panicked ({op}): {shown}"), &extra);
+                    } else {
+                        ex.report(h, format!("C14|validator|trust-anchors|configuration-history|well-formed-anchor-text-rejected|operation={op}"), format!("{op} returned an error for well-formed DS/DNSKEY lines in the history {shown}"), &extra);
+                    }
+                    break;
+                }
+            };
+            let (exp, nearest) = ta_expected(h, menu, set, qq);
+            // shape of the history as seen from the deciding owner
+            let (calls, distinct) = match nearest {
+                None => (0, 0),
+                Some(zi) => {
+                    let at = |r: &usize| key(&menu[*r].owner) == key(&h.zones[zi].apex);
+                    (chunks.iter().filter(|c| c.iter().any(at)).count(), (0..n).filter(|r| set & (1 << r) != 0 && at(r)).count())
+                }
+            };
+            let shape = format!("constructor={}|deciding-owner-configured-by-{calls}-calls|{distinct}-distinct-records", rname[*route as usize]);
+            let (v, out) = validate_cfg(h, qq, &none, tas, VConfig::new());
+            let what = format!("trust-anchor configuration history {shown}; unmodified answer for {} {} in {}", show(&qq.name), tname(qq.qtype), h.name);
+            ex.check(h, format!("C14|validator|trust-anchors|configuration-history|{shape}"), what.clone(), &v, &out, &[exp], extra.clone());
+            let one = &oneshot[&(*k, set, qi)];
+            if *one != v.short() && !matches!(v, Verdict::Panic(_)) {
+                ex.report(
+                    h,
+                    format!("C14|validator|trust-anchors|configuration-history|verdict-depends-on-the-history-not-on-the-set|{shape}|one-shot-{one}|history-{}", v.short()),
+                    format!("{what}: reported {v:?}, but {one} when the same set of records is configured by one from_u8 call"),
+                    &extra,
+                );
+            }
+        }
+    });
+    json!({
+        "hierarchies": his.iter().map(|hi| hiers[*hi].name).collect::<Vec<_>>(),
+        "menu": menus[0].iter().map(|r| r.label).collect::<Vec<_>>(),
+        "max_records_per_history": depth,
+        "record_sequences": seqs.len(),
+        "anchor_sets": masks.len(),
+        "histories_per_hierarchy": jobs.len() / his.len(),
+        "queries": queries.iter().map(|qq| format!("{} {}", show(&qq.name), tname(qq.qtype))).collect::<Vec<_>>(),
+        "validations": jobs.len() * queries.len() + oneshot_jobs.len(),
+        "rule": "history = constructor (empty / from_u8 / from_reader) then add_u8 calls; every sequence with repetitions of at most 3 menu records x every way of cutting it into calls x the three constructors; verdict per query = what RFC 4035 demands for the resulting SET (nearest configured owner; any one record designating a key that signs its DNSKEY RRset suffices) and = the verdict of the one-shot from_u8 configuration of the same set",
+    })
+}
+
 /// Trust-anchor forms / routes and non-default validator configurations.
-fn anchors_and_config(ctx: &Ctx, stats: &Stats, hiers: &[Arc<Hier>], s7: usize, only: Option<String>) {
+fn anchors_and_config(ctx: &Ctx, stats: &Stats, hiers: &[Arc<Hier>], s7: usize, r2: Option<usize>, k2: &[u8], only: Option<String>) -> Value {
     let ex = Expect { ctx, stats, only };
     let none: Arc<Vec<Fault>> = Arc::new(vec![]);
     let q = |n: &str, t: u16| Query { name: nm(n), qtype: t };
@@ -3365,6 +3642,9 @@ fn anchors_and_config(ctx: &Ctx, stats: &Stats, hiers: &[Arc<Hier>], s7: usize, 
             json!({"anchors": lines, "route": rname, "qname": show(&qq.name), "qtype": qq.qtype}),
         );
     });
+
+    // ---- histories of trust-anchor configuration
+    let ta_hist = anchor_histories(&ex, hiers, r2, k2);
 
     // ---- Config: tolerated bad signatures
     let ta = |h: &Hier| TrustAnchors::from_u8(h.ta_text.as_bytes()).expect("trust anchor");
@@ -3513,6 +3793,7 @@ fn anchors_and_config(ctx: &Ctx, stats: &Stats, hiers: &[Arc<Hier>], s7: usize, 
             }
         }
     }
+    ta_hist
 }
 
 /// Verdict of validate_msg for the (faulted) answer with the given trust anchor text ("" = none).
@@ -4318,7 +4599,7 @@ fn main() {
     let ctx = Ctx::new("C14", "fault_enumeration");
     let now = std::time::SystemTime::now().duration_since(std::time::UNIX_EPOCH).unwrap().as_secs() as u32;
     let quick = ctx.quick();
-    let sp = |name, kind, nsec3, opt_out, decoy, extra| Spec { name, kind, nsec3, opt_out, decoy, extra, zone_denial: None, records_changed: false, zsk: None };
+    let sp = |name, kind, nsec3, opt_out, decoy, extra| Spec { name, kind, nsec3, opt_out, decoy, extra, zone_denial: None, records_changed: false, zsk: None, root_ksk: None };
     let specs: Vec<Spec> = vec![
         sp("S1-nsec-secure", Kind::Secure, false, false, false, false),
         sp("S2-nsec3-secure", Kind::Secure, true, false, false, false),
@@ -4332,7 +4613,7 @@ fn main() {
     let sx = specs.len() - 1;
     // states of the SAME hierarchy after zone.tld. has been re-signed (keys of root, tld. and the DS constant)
     let (zk, zrd) = gen_key("zone.tld.");
-    let hs = |name, zone_denial, records_changed, zsk| Spec { name, kind: Kind::Secure, nsec3: true, opt_out: false, decoy: false, extra: false, zone_denial, records_changed, zsk };
+    let hs = |name, zone_denial, records_changed, zsk| Spec { name, kind: Kind::Secure, nsec3: true, opt_out: false, decoy: false, extra: false, zone_denial, records_changed, zsk, root_ksk: None };
     let n3 = |salt: u8, iters: u16| Some(Denial::Nsec3 { salt: vec![salt], iters, opt_out: false });
     let mut specs = specs;
     let hist0 = specs.len();
@@ -4360,13 +4641,23 @@ fn main() {
         ("W4-nsec-secure-clock-12h-after-2^31", 0x8000_0000u32 + 43_200),
     ];
     for (n, _) in wrap_clocks {
-        specs.push(Spec { name: n, kind: Kind::Secure, nsec3: false, opt_out: false, decoy: false, extra: false, zone_denial: None, records_changed: false, zsk: None });
+        specs.push(Spec { name: n, kind: Kind::Secure, nsec3: false, opt_out: false, decoy: false, extra: false, zone_denial: None, records_changed: false, zsk: None, root_ksk: None });
     }
+    // histories of trust-anchor configuration: a second key K2 of the root.  For S1 it is a configured key
+    // that is not (yet) published; the hierarchy R2 (thorough tier) publishes it and signs the root's
+    // DNSKEY RRset with K2 only
+    let (root_k2, root_k2_rd) = gen_key(".");
+    let r2 = if !quick || ctx.replay.is_some() {
+        specs.push(Spec { name: "R2-nsec-secure-root-dnskey-rrset-signed-by-second-key-only", kind: Kind::Secure, nsec3: false, opt_out: false, decoy: false, extra: false, zone_denial: None, records_changed: false, zsk: None, root_ksk: Some((root_k2, root_k2_rd.clone())) });
+        Some(specs.len() - 1)
+    } else {
+        None
+    };
     let hiers: Vec<Arc<Hier>> = specs
         .par_iter()
         .enumerate()
         .map(|(i, s)| {
-            let clock = if i >= wrap0 { Some(wrap_clocks[i - wrap0].1) } else { None };
+            let clock = if i >= wrap0 && i < wrap0 + wrap_clocks.len() { Some(wrap_clocks[i - wrap0].1) } else { None };
             let mut h = build_hier(s.clone(), clock.unwrap_or(now));
             h.clock = clock;
             Arc::new(h)
@@ -4387,6 +4678,13 @@ fn main() {
     }
     let time_ctxs: Vec<Arc<TimeCtx>> = time_scen.iter().map(|(hi, qs, _)| Arc::new(TimeCtx::new(&run.hiers[*hi], time_base, qs.clone()))).collect();
 
+    if std::env::var("C14_ANCHORS_ONLY").is_ok() {
+        // development aid: the trust-anchor / configuration block alone (no evidence file)
+        let t = std::time::Instant::now();
+        let j = anchors_and_config(&ctx, &run.stats, &run.hiers, s7, r2, &root_k2_rd, None);
+        println!("trust-anchor / configuration part: {} evaluations in {:.1} s\n{j}\n{}", run.stats.evals(), t.elapsed().as_secs_f64(), run.stats.counters_json());
+        ctx.finish_quiet();
+    }
     if let Some(path) = &ctx.replay {
         let v: Value = serde_json::from_str(&std::fs::read_to_string(path).expect("replay file")).expect("json");
         let c = &v["case"];
@@ -4404,7 +4702,7 @@ fn main() {
             ctx.finish(json!({"evaluations": 2, "distinct_nontrivial": 0, "rule": "replay", "samples": [c], "exhaustive": false}), &["replay of one case"]);
         }
         if c["special"].as_str() == Some("anchors-config") {
-            anchors_and_config(&ctx, &run.stats, &run.hiers, s7, v["signature"].as_str().map(|s| s.to_string()));
+            anchors_and_config(&ctx, &run.stats, &run.hiers, s7, r2, &root_k2_rd, v["signature"].as_str().map(|s| s.to_string()));
             ctx.finish(json!({"evaluations": run.stats.evals(), "distinct_nontrivial": 0, "rule": "replay", "samples": [c], "exhaustive": false}), &["replay: the trust-anchor/configuration block is re-run, only the class of the replay file is reported"]);
         }
         if c["special"].as_str() == Some("history") {
@@ -4605,7 +4903,7 @@ fn main() {
     }
 
     // trust anchor forms / routes and non-default configurations
-    anchors_and_config(&ctx, &run.stats, &run.hiers, s7, None);
+    let ta_hist_json = anchors_and_config(&ctx, &run.stats, &run.hiers, s7, r2, &root_k2_rd, None);
 
     // Connection reply post-processing: request flags {AD, DO, CD} x upstream AD x validation outcome
     let mut flag_cases: Vec<(usize, Query, Arc<Vec<Fault>>, bool)> = vec![];
@@ -4720,6 +5018,7 @@ fn main() {
             "context_reuse_other": reuse_json,
             "histories_zone_re_signed": {"states": run.hiers[hist0..s7].iter().map(|h| h.name).collect::<Vec<_>>(), "queries": hq.len(), "two_step": n_hist2, "three_step": histories.len() - n_hist2,
                 "rule": "every ordered pair (state, query) x (state', query') in which the key that signs state' is in the DNSKEY RRset of state (a validated DNSKEY RRset may be kept for its TTL); thorough adds all three-step histories over the four denial-parameter states and four negative queries"},
+            "trust_anchor_configuration_histories": ta_hist_json,
             "connection_flag_product": {"answers": flag_cases.len(), "runs": flag_runs.len(), "rule": "request flags {AD,DO,CD} x upstream AD x upstream OPT record x answers that are Secure (also with TTLs to be clamped) / Insecure / Bogus / Indeterminate"},
             "samples": run.stats.samples(),
         }),
